@@ -400,6 +400,8 @@ class IsaComponent(Component):
                     return ok
                 checks.setdefault("C15", [all(str(f) in msg for f in fields[1:]), "message names the culprit"])
                 return fields == mf
+            if str(mr[0]) == "ok" and str(ir[0]) == "ok" and isinstance(mr[1], list) and all(len(x) == 2 for x in mr[1]):
+                return sorted(mr[1]) == sorted(ir[1])           # a dict: entry order is not part of the property
             return mr == ir
         a1 = cmp(m[0], i[0])
         a2 = (m[1] == i[1]) if (str(m[1]) == "none" or str(i[1]) == "none") else cmp(m[1], i[1])
@@ -553,7 +555,11 @@ class MkprocComponent(Component):
         m = jsonable(res["model"][0])
         i = jsonable(impl)
         n = sum(len(v) for v in case["parts"].values())
-        return std_report(case, m == i, m, i, checks_of(res), tags=[f"res:{i[0]}", f"units:{n}",
+        if str(m[0]) == "ok" and str(i[0]) == "ok":
+            agree = {"exact": m == i, "canon": canon_proc(m[1]) == canon_proc(i[1])}
+        else:
+            agree = {"exact": m == i, "canon": m == i}
+        return std_report(case, agree, m, i, checks_of(res), tags=[f"res:{i[0]}", f"units:{n}",
                           f"internal:{len(case['parts']['ints'])}"], nontrivial=len(case["parts"]["ints"]) >= 2)
 
 
@@ -649,27 +655,35 @@ class PipelineComponent(Component):
                 [ln if ln.endswith("\n") else ln + "\n" for ln in case["lines"]]]
         if diag is not None:
             args.append([Sym("Done"), diag])
-        return args, out
+        multi = [{"driver": "pipeline", "args": args}]
+        if "sim" in lib and str(lib["sim"][0]) == "Done":
+            multi.append({"driver": "table", "args": [lib["sim"][1], len(lib["hw"])]})
+        return {"multi": multi}, out
 
     def judge(self, case, impl, res):
+        res_list = res if isinstance(res, list) else [res]
+        res = res_list[0]
         m = jsonable(res["model"][0])
         lib = jsonable(impl["lib"])
         completes = "sim" in lib and lib["sim"][0] == "Done"
         checks = {}
+        tbl = jsonable(res_list[1]["model"][0]) if len(res_list) > 1 else None
         if completes:
             ok = impl["rc"] == 0 and impl["parsed"] is not None
             # C16: the printed table is exactly the library's diagram, cell by cell
             checks["C16"] = [ok and jsonable(impl["parsed"]) == lib["sim"][1]
                              and self._shape_ok(impl["stdout"], lib["sim"][1], len(lib["hw"])),
                              "printed cells = library diagram"]
-            agree = str(m[0]) == "ok" and m[1] == impl["stdout"] and m[2] == lib["proc"] and m[3] == lib["hw"] \
+            whole = str(m[0]) == "ok" and m[1] == impl["stdout"] and m[2] == lib["proc"] and m[3] == lib["hw"] \
                 and m[4] == lib["sim"][1]
+            # C16 proper: stdout = the model's rendering of the LIBRARY's diagram
+            agree = {"table": tbl is not None and str(tbl[0]) == "ok" and tbl[1] == impl["stdout"], "pipeline": whole}
             if str(m[0]) == "ok" and len(m) > 6 and m[5]:
                 for e in m[6][1:]:
                     checks["T" + str(e[0])] = [bool(e[1]), "diagram property on the printed table"]
             mm, ii = m[:5], ["ok", impl["stdout"], lib.get("proc"), lib.get("hw"), lib["sim"][1]]
         else:
-            agree = str(m[0]) != "ok"                    # model must not complete either
+            agree = {"table": True, "pipeline": str(m[0]) != "ok"}    # model must not complete either
             mm, ii = m[:2], lib
         ncyc = len(lib["sim"][1]) if completes else 0
         return std_report(case, agree, mm, ii, checks, tags=[f"completes:{int(completes)}", f"rc:{impl['rc']}"],
@@ -781,13 +795,19 @@ class RecaseComponent(Component):
                 ({k: low(v) for k, v in x.items()} if isinstance(x, dict) else
                  ([low(v) for v in x] if isinstance(x, list) else x))
             same = same and low(l1["err"][:2]) == low(l2["err"][:2])
-        def agree_one(l, m):
+        def agree_one(l, m, canon):
             if "err" in l:
                 return str(m[0]) == "err"
             if l["sim"][0] != "Done":
                 return str(m[0]) == "err"
+            if canon:
+                if str(m[0]) != "ok":
+                    return False
+                return canon_proc(m[2]) == canon_proc(l["proc"]) and m[3] == l["hw"] and \
+                    (m[2] != l["proc"] or m[4] == l["sim"][1])
             return norm_m(m) == norm(l)
-        agree = agree_one(l1, m1) and agree_one(l2, m2)
+        agree = {"exact": agree_one(l1, m1, False) and agree_one(l2, m2, False),
+                 "canon": agree_one(l1, m1, True) and agree_one(l2, m2, True)}
         rep = std_report(case, agree, [m1[:2], m2[:2]], [norm(l1), norm(l2)], {},
                          tags=["res:" + ("err" if "err" in l1 else str(l1["sim"][0]))],
                          nontrivial=case["desc"] != case["desc2"] or case["lines"] != case["lines2"])
